@@ -196,6 +196,12 @@ def run(rep, tier, driver):
         if v[0] != want:
             rep.violation("input", {"iupac": s0, "what": "Glycan.tree_full"}, {"tree_full": v[0]},
                           {"tree_full": want, "residues": {n: rf[n][0] for n in v[1]}, "labels": v[2]}, key="treefull:" + s0)
+    # the reactor's own `full` flag over all rounds (Model: React.reactLoop; C10_react_full_never_recovers) on every residue the streams
+    # above used, plus residues whose modifications need a second round or stall
+    import reactx
+    rnames = list(residues) + ["Glc6Ac8S", "Glc2Ac7Me9S", "Glc7S", "Glc6Alloc", "Glc6Alloc8Ac", "Glc6Et8S", "Glc2Gc8P", "Neu5Ac11Ac", "Neu5Gc11S", "Glc6Pyr7S", "Glc9S",
+                               "Glc2Ac3Unk", "Glc6Lac9Me", "Glc6Et8Alloc", "Glc6Alloc7Et9S", "Kdo8Et10P", "Xyl4Ac6S", "Glc3Me7Me8Me", "GlcNAc8S", "GlcNGc9Ac"]
+    reactx.run(rep, tier, driver, rnames[: (400 if tier == "quick" else 6000)])
     # the gate itself against the Lean model
     if driver is not None:
         for to in (False, True):
